@@ -6,14 +6,15 @@ toolchain go1.23.2
 
 require (
 	github.com/anishathalye/porcupine v1.3.0
+	github.com/attestantio/go-eth2-client v0.21.11
 	github.com/attestantio/vouch v0.0.0
 	github.com/rs/zerolog v1.33.0
 	github.com/spf13/viper v1.19.0
 )
 
 require (
+	github.com/attestantio/go-block-relay v0.4.1 // indirect
 	github.com/attestantio/go-builder-client v0.5.1 // indirect
-	github.com/attestantio/go-eth2-client v0.21.11 // indirect
 	github.com/beorn7/perks v1.0.1 // indirect
 	github.com/cespare/xxhash/v2 v2.3.0 // indirect
 	github.com/emicklei/dot v1.6.2 // indirect
@@ -45,6 +46,7 @@ require (
 	github.com/prysmaticlabs/go-bitfield v0.0.0-20240618144021-706c95b2dd15 // indirect
 	github.com/sagikazarmark/slog-shim v0.1.0 // indirect
 	github.com/sasha-s/go-deadlock v0.3.5 // indirect
+	github.com/shopspring/decimal v1.4.0 // indirect
 	github.com/spf13/afero v1.11.0 // indirect
 	github.com/spf13/cast v1.7.0 // indirect
 	github.com/spf13/pflag v1.0.5 // indirect
